@@ -1,14 +1,92 @@
-// Package c18 is the correspondence area of property C18 (stub: the slice is not built yet).
+// Package c18 feeds the regenerated lockset table (extract/lockset → .work/lockset.json, path in
+// VERIF_LOCKSET_JSON) to the Lean driver, one line per candidate pair of accesses to the same field
+// where at least one writes. The "implementation output" is whether the pair is in the table
+// regenerated from the current sources (so a replayed pair that no longer exists is reported absent).
 package c18
 
 import (
+	"encoding/json"
+	"fmt"
 	"math/rand"
+	"os"
+	"strings"
 )
+
+type access struct {
+	Field string   `json:"field"`
+	Func  string   `json:"func"`
+	Write bool     `json:"write"`
+	Locks []string `json:"locks"`
+	Fresh bool     `json:"fresh"`
+	Pos   string   `json:"pos"`
+}
+
+type table struct {
+	Accesses []access `json:"accesses"`
+}
 
 type Area struct{}
 
 func (Area) Name() string { return "c18" }
 
-func (Area) Exec(input string) string { return "UNIMPLEMENTED" }
+func load() table {
+	var t table
+	p := os.Getenv("VERIF_LOCKSET_JSON")
+	if p == "" {
+		p = "/verif/.work/lockset.json"
+	}
+	b, err := os.ReadFile(p)
+	if err != nil {
+		panic(err)
+	}
+	if err := json.Unmarshal(b, &t); err != nil {
+		panic(err)
+	}
+	return t
+}
 
-func (Area) Gen(r *rand.Rand, tier string, emit func(string)) {}
+func b2s(b bool) string {
+	if b {
+		return "1"
+	}
+	return "0"
+}
+
+func locks(l []string) string {
+	if len(l) == 0 {
+		return "-"
+	}
+	return strings.Join(l, ",")
+}
+
+func key(a access) string {
+	return fmt.Sprintf("%s %s %s %s", a.Func, b2s(a.Write), locks(a.Locks), b2s(a.Fresh))
+}
+
+func (Area) Gen(r *rand.Rand, tier string, emit func(string)) {
+	t := load()
+	for i, a := range t.Accesses {
+		for j, b := range t.Accesses {
+			if j < i || a.Field != b.Field || !(a.Write || b.Write) {
+				continue
+			}
+			emit(fmt.Sprintf("pair %s %s %s", a.Field, key(a), key(b)))
+		}
+	}
+}
+
+func (Area) Exec(input string) string {
+	f := strings.Fields(input)
+	if len(f) != 10 || f[0] != "pair" {
+		return "BADOP"
+	}
+	t := load()
+	have := map[string]bool{}
+	for _, a := range t.Accesses {
+		have[a.Field+" "+key(a)] = true
+	}
+	if have[f[1]+" "+strings.Join(f[2:6], " ")] && have[f[1]+" "+strings.Join(f[6:10], " ")] {
+		return "present"
+	}
+	return "absent"
+}
